@@ -452,9 +452,9 @@ def run_asgi(app, scope, messages, monitor=True, send_fail_at=None, horizon=2000
                 res.events.append(_resolve_zerocopy(message))
             else:
                 m = dict(message)
-                if "headers" in m and not isinstance(m["headers"], (list, tuple)):
+                if "headers" in m:
                     try:
-                        m["headers"] = list(m["headers"])  # any iterable is allowed; a server reads it once
+                        m["headers"] = list(m["headers"])  # any iterable is allowed; a server reads it once - and now: the list stays the application's
                     except TypeError:
                         pass
                 res.events.append(m)
@@ -570,8 +570,8 @@ def run_asgi_pair(prefix, app, scopes, messages):
                 st["n"] += 1
                 results[i].raw_events.append(message)
                 m = _resolve_zerocopy(message) if message.get("type") == "http.response.zerocopysend" else dict(message)
-                if "headers" in m and not isinstance(m["headers"], (list, tuple)):
-                    m["headers"] = list(m["headers"])
+                if "headers" in m:
+                    m["headers"] = list(m["headers"])  # (written out now: the list stays the application's)
                 results[i].events.append(m)
                 await s.env.gate(f"s{i}-{st['n']:03d}")
 
